@@ -8,7 +8,8 @@ TECHNIQUE = 'model-based differential testing: Hypothesis-generated programs x h
 RULE = ('Each case = a generated build program (1-5 build_file/subbuild functions forming a DAG, queries, data-dependent '
         'branches, caught/uncaught raises, missing writes, non-JSON returns) plus an interactively drawn history of 2-10 '
         'steps [build | build with new versions | failing build | external write/rm/mkdir/touch/swap | delete cache | clean] '
-        'over a 16-path universe; after every build the outcome and the complete tree are compared with the reference model. '
+        'over a 20-path universe; in about a third of the cases (counter respelled_path_cases) the real run spells 60% of the paths it hands to the library '
+        'differently (//, /./, x/../, trailing separator; same abspath); after every build the outcome and the complete tree are compared with the reference model. '
         'Non-trivial = the history contains a committed build on top of a valid cache in which >=1 function was served from '
         'the cache and >=1 was executed (partial hit), preceded by >=1 effective external mutation or version change; '
         'distinct = distinct scenario JSON.')
